@@ -123,3 +123,71 @@ func (s *snap) walk(v reflect.Value, depth int) {
 		fmt.Fprintf(&s.b, "%v", v)
 	}
 }
+
+// Roomy rebuilds, in place, every slice reachable from v (a pointer) with spare capacity behind its elements, filled
+// with recognisable values: the caller's memory a callee's append would write into. Contents, nil-ness and aliasing
+// between pointers are kept; a callee that appends to a slice it was given, or re-slices it beyond its length,
+// changes the spare region, which Snapshot prints.
+func Roomy(v interface{}) {
+	roomy(reflect.ValueOf(v), map[uintptr]bool{}, 0)
+}
+
+func roomy(v reflect.Value, seen map[uintptr]bool, depth int) {
+	if depth > 40 {
+		return
+	}
+	switch v.Kind() {
+	case reflect.Ptr:
+		if v.IsNil() || seen[v.Pointer()] {
+			return
+		}
+		seen[v.Pointer()] = true
+		roomy(v.Elem(), seen, depth+1)
+	case reflect.Interface:
+		if !v.IsNil() && v.Elem().Kind() == reflect.Ptr {
+			roomy(v.Elem(), seen, depth+1)
+		}
+	case reflect.Struct:
+		if v.Type().PkgPath() == "time" {
+			return
+		}
+		for i := 0; i < v.NumField(); i++ {
+			if v.Type().Field(i).IsExported() {
+				roomy(v.Field(i), seen, depth+1)
+			}
+		}
+	case reflect.Slice:
+		if v.IsNil() || !v.CanSet() {
+			return
+		}
+		n := v.Len()
+		w := reflect.MakeSlice(v.Type(), n+3, n+3)
+		reflect.Copy(w, v)
+		for i := n; i < n+3; i++ {
+			switch w.Index(i).Kind() {
+			case reflect.String:
+				w.Index(i).SetString("~spare")
+			case reflect.Uint8:
+				w.Index(i).SetUint('~')
+			}
+		}
+		v.Set(w.Slice(0, n))
+		for i := 0; i < n; i++ {
+			roomy(v.Index(i), seen, depth+1)
+		}
+	case reflect.Array:
+		for i := 0; i < v.Len(); i++ {
+			roomy(v.Index(i), seen, depth+1)
+		}
+	case reflect.Map:
+		if v.IsNil() {
+			return
+		}
+		for _, k := range v.MapKeys() {
+			e := v.MapIndex(k)
+			if e.Kind() == reflect.Ptr || e.Kind() == reflect.Interface {
+				roomy(e, seen, depth+1)
+			}
+		}
+	}
+}
